@@ -100,7 +100,7 @@ type SyncEvent struct {
 }
 
 func (in *Interp) recordSync(fr *Frame, op string, acquired bool) {
-	if !in.Explore || fr == nil || fr.Fn == nil || !strings.HasPrefix(fnPkgPath(fr.Fn), "berty.tech/go-ipfs-log") {
+	if fr == nil || fr.Fn == nil || !strings.HasPrefix(fnPkgPath(fr.Fn), "berty.tech/go-ipfs-log") {
 		return
 	}
 	g := in.cur
